@@ -128,11 +128,18 @@ impl Script {
         let mut cursor = Cursor::new(bytes);
 
         let mut bit_accumulator = vec![];
+        // A push that declares more data than remains is malformed. The only place it is tolerated is the data
+        // carrier tail after an OP_RETURN, where sCrypt-style stateful contracts append raw state bytes.
+        let mut seen_op_return = false;
         while let Ok(byte) = cursor.read_u8() {
             if byte.ne(&(OpCodes::OP_0 as u8)) && byte.lt(&(OpCodes::OP_PUSHDATA1 as u8)) {
-                let mut data: Vec<u8> = vec![0; byte as usize];
-                match cursor.read(&mut data) {
-                    Ok(len) => bit_accumulator.push(ScriptBit::Push(data[..len].to_vec())),
+                let remaining = bytes.len() - cursor.position() as usize;
+                if byte as usize > remaining && !seen_op_return {
+                    return Err(BSVErrors::DeserialiseScript(format!("OP_PUSH declares {} bytes of data but only {} remain", byte, remaining)));
+                }
+                let mut data: Vec<u8> = vec![0; (byte as usize).min(remaining)];
+                match cursor.read_exact(&mut data) {
+                    Ok(()) => bit_accumulator.push(ScriptBit::Push(data)),
                     Err(e) => return Err(BSVErrors::DeserialiseScript(format!("Failed to read OP_PUSH data {}", e))),
                 }
                 continue;
@@ -146,14 +153,21 @@ impl Script {
                         _ => cursor.read_u32::<LittleEndian>()? as usize,
                     };
 
+                    let remaining = bytes.len() - cursor.position() as usize;
+                    if data_length > remaining {
+                        return Err(BSVErrors::DeserialiseScript(format!("{} declares {} bytes of data but only {} remain", v, data_length, remaining)));
+                    }
                     let mut data = vec![0; data_length];
-                    if let Err(e) = cursor.read(&mut data) {
+                    if let Err(e) = cursor.read_exact(&mut data) {
                         return Err(BSVErrors::DeserialiseScript(format!("Failed to read OP_PUSHDATA data {}", e)));
                     }
 
                     ScriptBit::PushData(v, data)
                 }
-                Some(v) => ScriptBit::OpCode(v),
+                Some(v) => {
+                    seen_op_return |= v == OpCodes::OP_RETURN;
+                    ScriptBit::OpCode(v)
+                }
                 None => return Err(BSVErrors::DeserialiseScript(format!("Unknown opcode {}", byte))),
             };
 
